@@ -33,4 +33,4 @@ pub fn mul32(a: u32, b: u32) -> u32 { let (x, y) = sorted(a as u64, b as u64); i
 pub fn div32(a: u32, b: u32) -> u32 { unsafe { DIV32.call(a as u64, b as u64) as u32 } }
 pub fn rem32(a: u32, b: u32) -> u32 { unsafe { REM32.call(a as u64, b as u64) as u32 } }
 pub fn unspecified() -> u64 { kani::any() }
-pub fn reset() { unsafe { MUL64.n = 0; DIV64.n = 0; REM64.n = 0; MUL32.n = 0; DIV32.n = 0; REM32.n = 0; } }
+pub fn reset() { unsafe { MUL64 = Uf::new(); DIV64 = Uf::new(); REM64 = Uf::new(); MUL32 = Uf::new(); DIV32 = Uf::new(); REM32 = Uf::new(); } }
